@@ -27,7 +27,9 @@ Fixpoint dec_rule (fuel : nat) (x : sx) : rule :=
          (sx_bool (f 5%nat)) (to_strs (f 6%nat))
          (if Z.eqb (sx_int (f 7%nat)) 2 then RCopy else RProxy)
          (dec_hostmode (sx_str (f 8%nat))) (sx_bool (f 9%nat)) (sx_str (f 10%nat)) (sx_int (f 11%nat))
-         (map dec_pair_opt (sx_list (f 12%nat))) (map dec_pair (sx_list (f 13%nat)))
+         (* NewRules: request header names are trimmed and lower-cased, response header names and values trimmed *)
+         (map (fun x => let p := dec_pair_opt x in (to_lower (trim_space (fst p)), snd p)) (sx_list (f 12%nat)))
+         (map (fun x => let p := dec_pair x in (trim_space (fst p), trim_space (snd p))) (sx_list (f 13%nat)))
          (sx_bool (f 14%nat))
          (match fuel, f 15%nat with
           | S fuel', L [r] => Some (dec_rule fuel' r)
@@ -43,7 +45,8 @@ Definition dec_hdrs (x : sx) : hdrs := hdrs_of_pairs (map dec_pair (sx_list x)).
 Definition dec_req (x : sx) : req :=
   let f n := sx_nth n x in
   mkReq (sx_str (f 0%nat)) (sx_str (f 1%nat)) (sx_bool (f 2%nat)) (sx_str (f 3%nat)) (sx_str (f 4%nat))
-        (sx_str (f 5%nat)) (dec_hdrs (f 6%nat)) (sx_str (f 7%nat)) (sx_str (f 8%nat)) (sx_str (f 9%nat)).
+        (sx_str (f 5%nat)) (dec_hdrs (f 6%nat)) (sx_str (f 7%nat)) (sx_str (f 8%nat)) (sx_str (f 9%nat))
+        (to_strs (f 11%nat)).
 
 Definition dec_behaviour (x : sx) : behaviour :=
   match x with
@@ -94,6 +97,11 @@ Definition enc_dlv (d : dlv) : sx :=
 Definition enc_serve (o : serve_out) : sx :=
   L [enc_client (so_client o); L (map enc_dlv (so_log o))].
 
+(* a HEAD response carries no body on the wire (Go's server drops it) *)
+Definition s_HEAD : str := bytes "HEAD"%string.
+Definition blank_head_body (m : str) (c : client) : client :=
+  if str_eqb m s_HEAD then mkClient (cl_kind c) (cl_status c) (cl_hdrs c) [] else c.
+
 (* ---- the "route" family ---- *)
 (* case = L [A "route"; cfg; L rules; req; script] *)
 Definition route_case (x : sx) :=
@@ -101,7 +109,8 @@ Definition route_case (x : sx) :=
 
 Definition run_route (x : sx) : sx :=
   let '(c, rs, q, sc) := route_case x in
-  enc_serve (serve_nocache 6 c rs q sc).
+  let o := serve_nocache 6 c rs q sc in
+  enc_serve (mkServeOut (blank_head_body (q_method q) (so_client o)) (so_log o)).
 
 (* raw implementation observation -> the same projection.
    raw = L [ L [A kind; I status; L [L [A k; L vs]...]; A body];  L [ L [A url; A host; A method; hdrs; A body] ...] ] *)
@@ -119,3 +128,17 @@ Definition proj_dlv (x : sx) : sx :=
 
 Definition proj_route (x : sx) : sx :=
   L [proj_client (sx_nth 0 x); L (map proj_dlv (sx_list (sx_nth 1 x)))].
+
+(* ---- the "copy" family: one request run without the copy rules and under several copy-side scripts ---- *)
+(* case = L [A "copy"; cfg; L rules; req; script; L [script...]] ; observation = L [obs...] *)
+Definition run_route_with (c : cfg) (rs : list rule) (q : req) (sc : script) : sx :=
+  let o := serve_nocache 6 c rs q sc in
+  enc_serve (mkServeOut (blank_head_body (q_method q) (so_client o)) (so_log o)).
+
+Definition run_copy (x : sx) : sx :=
+  let '(c, rs, q, sc) := route_case x in
+  let variants := map dec_script (sx_list (sx_nth 5 x)) in
+  L (run_route_with c (filter is_proxy rs) q sc
+     :: map (fun v => run_route_with c rs q (v ++ sc)) variants).
+
+Definition proj_copy (x : sx) : sx := L (map proj_route (sx_list x)).
